@@ -510,6 +510,59 @@ def native_continued_literal():
         ws.close()
 
 
+def native_references_after_edit():
+    """references are computed from the text the server holds now: after single-line incremental edits that add a use of
+    a name to a file that never mentioned it (and after a rename applied as incremental edits) the answers are those of a
+    server that was given the final text from the start"""
+    from replay.harness import Workspace, make_server, parse_out
+    from fortls.jsonrpc import path_to_uri
+    a = "module ma\n  implicit none\n  integer :: tally\ncontains\n  subroutine bump()\n    tally = tally + 1\n  end subroutine bump\nend module ma\n"
+    b = "module mb\n  use ma\n  implicit none\ncontains\n  subroutine other()\n    integer :: k\n    k = 1\n  end subroutine other\nend module mb\n"
+    edits = [("b.f90", 6, 9, 9, " + tally"), ("b.f90", 5, 16, 16, ", extra"), ("b.f90", 6, 4, 4, "extra = 2; ")]
+
+    def refs(srv, rw, ws, fname, ln, ch):
+        rw.out.clear()
+        srv.handle({"jsonrpc": "2.0", "id": 9, "method": "textDocument/references",
+                    "params": {"textDocument": {"uri": ws.uri(fname)}, "position": {"line": ln, "character": ch}, "context": {"includeDeclaration": True}}})
+        r = [m for m in parse_out(rw.out) if m.get("id") == 9]
+        return sorted((x["uri"].rsplit("/", 1)[-1], x["range"]["start"]["line"], x["range"]["start"]["character"]) for x in (r[0].get("result") or [])) if r else None
+
+    def start(ws):
+        srv, rw = make_server(("--incremental_sync",))
+        srv.nthreads = 1
+        srv.handle({"jsonrpc": "2.0", "id": 0, "method": "initialize", "params": {"rootUri": path_to_uri(ws.root), "rootPath": ws.root}})
+        for n in ("a.f90", "b.f90"):
+            srv.handle({"jsonrpc": "2.0", "method": "textDocument/didOpen", "params": {"textDocument": {"uri": ws.uri(n)}}})
+        return srv, rw
+    ws = Workspace({"a.f90": a, "b.f90": b})
+    try:
+        srv, rw = start(ws)
+        refs(srv, rw, ws, "a.f90", 2, 13)          # a first request: whatever is cached per file is cached now
+        refs(srv, rw, ws, "b.f90", 5, 15)
+        texts = {"a.f90": a.split("\n"), "b.f90": b.split("\n")}
+        for fname, ln, c0, c1, ins in edits:
+            srv.handle({"jsonrpc": "2.0", "method": "textDocument/didChange",
+                        "params": {"textDocument": {"uri": ws.uri(fname)},
+                                   "contentChanges": [{"range": {"start": {"line": ln, "character": c0}, "end": {"line": ln, "character": c1}}, "text": ins}]}})
+            L = texts[fname]
+            L[ln] = L[ln][:c0] + ins + L[ln][c1:]
+        got = {"tally": refs(srv, rw, ws, "a.f90", 2, 13), "extra": refs(srv, rw, ws, "b.f90", 5, 18)}
+        final = {n: "\n".join(L) for n, L in texts.items()}
+    finally:
+        ws.close()
+    ws2 = Workspace(final)
+    try:
+        srv2, rw2 = start(ws2)
+        want = {"tally": refs(srv2, rw2, ws2, "a.f90", 2, 13), "extra": refs(srv2, rw2, ws2, "b.f90", 5, 18)}
+    finally:
+        ws2.close()
+    for k in want:
+        if got[k] != want[k] or not want[k]:
+            return {"entity": k, "files_after_the_edits": final, "edits": edits, "references_after_edits": got[k],
+                    "references_of_a_server_started_on_the_final_text": want[k]}
+    return None
+
+
 def native_kind_suffix():
     from replay.harness import Workspace, session
     text = "program ks\n  integer, parameter :: dp = 8\n  real(dp) :: a\n  a = 1.0_dp + 0.5e1_dp\n  print *, a, 2_dp\nend program ks\n"
@@ -557,6 +610,12 @@ def extra(repo, reg, tier, seed):
     items.append(Item("C06/session/native_references_keyword_argument", "refuted" if w else "bounded-ok", "native-run(bounded)", 0.0,
                       mode="bounded", witness=w, confirmed=True if w else None, func=f"{LS}.get_all_references",
                       detail="bounded: one program with an argument keyword spelled like a variable of the caller"))
+    w = native_references_after_edit()
+    items.append(Item("C06/session/native_references_after_incremental_edits", "refuted" if w else "bounded-ok", "native-run(bounded)", 0.0,
+                      mode="bounded", witness=w, confirmed=True if w else None, func=f"{LS}.get_all_references",
+                      detail="bounded: two files, a references request, three single-line incremental edits (a new use of a module "
+                             "variable in a file that never mentioned it, a new local), references again: equal to those of a "
+                             "server started on the final text"))
     w = native_kind_suffix()
     items.append(Item("C06/session/native_references_kind_suffix", "refuted" if w else "bounded-ok", "native-run(bounded)", 0.0,
                       mode="bounded", witness=w, confirmed=True if w else None, func=f"{LS}.get_all_references",
